@@ -83,7 +83,7 @@ def exhaustive(tier, shard, nshards):
 _f12 = st.one_of(st.sampled_from([0, 1, 15, 16, 47, 48, 49, 255, 256, 1048, 2047, 2048, 2049, 3048, 3840, 4079, 4080, 4095, 0x555, 0xAAA, 0xF0F, 0x0F0]), st.integers(0, 4095))
 _byte = st.one_of(st.sampled_from([0x00, 0x0F, 0xF0, 0xFF, 0xAA, 0x55, 0x80, 0x7F, 0x01, 0x10, 0xFE]), st.integers(0, 255))
 _dtype = st.sampled_from(['float32', 'float64'])
-_outmode = st.sampled_from(['none', 'none', 'false', 'arr'])
+_outmode = st.sampled_from(['none', 'none', 'false', 'arr', 'strided'])
 _box = st.one_of(st.sampled_from(BOXES), st.floats(1e-3, 1e5, allow_nan=False, allow_infinity=False))
 _velz = st.one_of(st.sampled_from(VELZ), st.floats(1e-2, 1e5, allow_nan=False, allow_infinity=False))
 
@@ -271,6 +271,11 @@ def _decode_and_check(recs, box, velz, dtype, posmode, velmode, storage, what, t
             buf = np.full((nrec + 2 * M, 3), SENT, dtype=dtype)
             bufs[name] = buf
             kw[name + 'out'] = buf[M : M + nrec]
+        elif mode == 'strided':
+            # a non-contiguous (nrec,3) view: one half of an (nrec,6) phase-space block
+            buf = np.full((nrec + 2 * M, 6), SENT, dtype=dtype)
+            bufs[name] = buf
+            kw[name + 'out'] = buf[M : M + nrec, :3] if name == 'pos' else buf[M : M + nrec, 3:]
     ret = call_repo(pack9.unpack_pack9, data, box, velz, float_dtype=dtype, **kw)
     if not np.array_equal(data, keep):
         raise Violation('input-modified', 'unpack_pack9 changed its input')
@@ -292,6 +297,15 @@ def _decode_and_check(recs, box, velz, dtype, posmode, velmode, storage, what, t
             if len(a) != n:
                 raise Violation('pack9-count', '%s: %d particles returned, the stream has %d non-header records out of %d' % (w, len(a), n, nrec))
             outs[name] = a
+        elif mode == 'strided':
+            if isinstance(ret[k], np.ndarray) or int(ret[k]) != n:
+                raise Violation('pack9-count', '%s: supplied output, returned count %r, the stream has %d non-header records out of %d' % (w, ret[k], n, nrec))
+            buf = bufs[name]
+            mine = buf[M : M + nrec, :3] if name == 'pos' else buf[M : M + nrec, 3:]
+            other = buf[M : M + nrec, 3:] if name == 'pos' else buf[M : M + nrec, :3]
+            if not (np.all(buf[:M] == SENT) and np.all(buf[M + nrec :] == SENT) and np.all(other == SENT) and np.all(mine[n:] == SENT)):
+                raise Violation('pack9-canary', '%s: wrote outside the supplied (strided) output' % w)
+            outs[name] = np.ascontiguousarray(mine[:n])
         elif mode == 'arr':
             if isinstance(ret[k], np.ndarray) or int(ret[k]) != n:
                 raise Violation('pack9-count', '%s: supplied output, returned count %r, the stream has %d non-header records out of %d' % (w, ret[k], n, nrec))
@@ -302,6 +316,8 @@ def _decode_and_check(recs, box, velz, dtype, posmode, velmode, storage, what, t
         else:
             if isinstance(ret[k], np.ndarray) and ret[k].size:
                 raise Violation('pack9-return', '%s: not requested but an array was returned' % w)
+            if not isinstance(ret[k], np.ndarray) and int(ret[k]) != 0:
+                raise Violation('pack9-return', '%s: not requested, but %r particles are reported as unpacked into it' % (w, ret[k]))
     if 'pos' in outs:
         _cmp(outs['pos'], rpos, np.where(defined[:, None], ptol, 0.0), 'pack9-pos-wrong', what + ' pos', rows=defined)
     if 'vel' in outs:
